@@ -9,8 +9,8 @@ Streams
   api     : documented options of save / load / save_to_hdf5 / load_from_hdf5 / Hdf5Saver / Hdf5Loader.
   reduce2 : objects without explicit format (pickle-protocol fallback): every position of the reduce tuple.
   coverage: line coverage of every function of tenpy/tools/hdf5_io.py and of every save_hdf5 / from_hdf5 / __getstate__ /
-            __setstate__ / __reduce__ of the package (sys.settrace in one runner process over a representative chunk of all streams);
-            every public name of hdf5_io and every anchored function must be reached or classified below.
+            __setstate__ / __reduce__ of the package, recorded with sys.monitoring in EVERY runner process of the check (union over
+            all streams of this run); every public name of hdf5_io and every anchored function must be reached or classified below.
 """
 import re
 
@@ -37,6 +37,9 @@ UNREACHED_LINES = [
     (r"return version_str\.split", 'fallback when the packaging module is missing'),
     (r"raise ValueError\(f\"can't interpret type_info", 'defensive: load_dict is only called with the two dictionary formats'),
     (r"position_disorder = None|obj\.position_disorder = None", LEGACY),
+    (r"msg = f\"Don't know how to save object of type|raise Hdf5ExportError\(msg\)", 'defensive: every python object has __reduce__'),
+    (r"filled = h5gr\[\(\)\]|obj = np\.ma\.masked_equal\(filled, fill_value, copy=False\)", 'masked arrays stored without their mask: ' + LEGACY +
+     ' (the current saver takes this branch only in the cases of the recorded defect F17.12)'),
 ]
 
 # public names of tenpy.tools.hdf5_io: how they are covered.  'trace' = the function must be reached in the trace chunk,
@@ -47,7 +50,8 @@ PUBLIC = {
     'Hdf5Exportable': 'trace', 'Hdf5Ignored': 'api:format_errors', 'Hdf5Saver': 'trace', 'Hdf5Loader': 'trace',
     'TYPES_FOR_HDF5_DATASETS': 'leaves: every entry is a type of the value space',
 }
-PUBLIC_ATTRIBUTES = {'Hdf5Saver.dispatch_save': 'leaves: every key', 'Hdf5Loader.dispatch_load': 'leaves: every key must be a tag written by the saver'}
+PUBLIC_ATTRIBUTES = {'Hdf5Saver.dispatch_save': 'leaves: every key', 'Hdf5Loader.dispatch_load': 'leaves: every key must be a tag written by the saver',
+                     'Hdf5Saver.t': 'leftover loop variable of the class body (a numpy dtype class)', 'Hdf5Saver.t2': 'leftover loop variable of the class body'}
 
 
 # anchored functions that are deliberately never called
@@ -66,24 +70,42 @@ def _classify_line(text):
 def leaf_known_key(case, r):
     """match keys of the recorded defects (specific structural conditions computed independently of tenpy in the runner)"""
     f = r.get('facts', {})
-    if case['type'] == 'numpy.ma.MaskedArray' and f.get('saved_mask') is False and f.get('fill_marks_exactly_the_mask') is False:
-        return 'C17:Hdf5Saver.save_masked_array:mask-dropped-although-fill_value-does-not-mark-it'
-    if case['type'] == 'numpy.ma.MaskedArray' and case['mode'] != 'alone' and f.get('fill_marks_exactly_the_mask') is False and f.get('size', 0) > 0 \
-            and any('mask [' in p or 'masked array differs' in p for p in r.get('problems', [])):
+    if case['type'] == 'numpy.ma.MaskedArray' and f.get('fill_mark_agrees_nowhere') is True and f.get('saved_mask') in (False, None):
         return 'C17:Hdf5Saver.save_masked_array:mask-dropped-although-fill_value-does-not-mark-it'
     if case['type'].startswith('numpy.dtypes.') and f.get('dtype_name_sufficient') is False:
         return 'C17:Hdf5Loader.load_dtype:dtype-not-determined-by-its-name'
     return None
 
 
-def run(ctx, rng, replay, tm, gens, fixed_graphs):
+STATE = {'cov_dir': None, 'inv': None, 'table': None}
+
+
+def start(ctx, replay):
+    """directory the runner processes drop their line-coverage records into (payload key 'cov_dir')"""
+    import tempfile
+    STATE.update(cov_dir=None, inv=None, table=None)
+    if replay is None:
+        STATE['cov_dir'] = tempfile.mkdtemp(prefix='c17cov_', dir=common.scratch())
+    return STATE['cov_dir']
+
+
+def P(payload):
+    """payload with the coverage directory added"""
+    if STATE['cov_dir']:
+        payload = dict(payload, cov_dir=STATE['cov_dir'])
+    return payload
+
+
+def run(ctx, rng, replay, tm):
     import time
     t0 = time.time()
     table = {'items': {}, 'summary': {}}
+    STATE['table'] = table
     (inv, err), = common.run_impl_parallel('c17_cover_impl.py', [{'kind': 'inventory'}])
     if err:
         ctx.fail('correspondence', 'coverage inventory failed: ' + err[-800:], None)
         return
+    STATE['inv'] = inv
     lv = inv['leaves']
     # ---- reflection: every dispatched type has a value space or a recorded exclusion
     for t in lv['dispatch_save'] + [x[0] for x in lv['datasets']]:
@@ -110,10 +132,10 @@ def run(ctx, rng, replay, tm, gens, fixed_graphs):
         cases = [dict(replay['case'])]
     nchunk = min(common.NPROC, 12)
     chunks = [cases[i::nchunk] for i in range(nchunk)]
-    payloads = [{'kind': 'leaves', 'cases': ch} for ch in chunks if ch]
+    payloads = [P({'kind': 'leaves', 'cases': ch}) for ch in chunks if ch]
     extra = []
     if replay is None:
-        extra = [{'kind': 'api', 'names': inv['api']}, {'kind': 'reduce2', 'names': inv['reduce']}, trace_payload(ctx, rng, gens, inv, fixed_graphs)]
+        extra = [P({'kind': 'api', 'names': inv['api'][:3]}), P({'kind': 'api', 'names': inv['api'][3:]}), P({'kind': 'reduce2', 'names': inv['reduce']})]
     elif replay.get('stream') == 'api':
         extra = [{'kind': 'api', 'names': [replay['scenario']]}]
     elif replay.get('stream') == 'reduce2':
@@ -187,40 +209,35 @@ def run(ctx, rng, replay, tm, gens, fixed_graphs):
                     elif method.startswith('hdf5') and not m.get('warned') and name not in ('np_ufunc',):
                         ctx.fail('oracle', 'hdf5 of %s: no "fall back to pickle protocol" warning for an object without explicit format' % name, case,
                                  match_key='C17:reduce:%s:nowarning' % name)
-        elif p['kind'] == 'trace':
-            coverage_table(ctx, r, inv, table)
     ctx.cov['coverage_table'] = table
     tm['cover'] = round(time.time() - t0, 1)
 
 
-def trace_payload(ctx, rng, gens, inv, fixed_graphs):
-    """one representative chunk of all streams, run under sys.settrace in ONE process"""
-    specs = []
-    models = 0
-    for name in sorted(gens):
-        if name.startswith('model:'):
-            models += 1
-            if models % 12 != 1:
-                continue
-        nv = gens[name]
-        vs = list(range(nv)) if nv <= 3 else sorted(set([0, 1, nv - 1] + [rng.randrange(nv)]))
-        if name.startswith('lattice_segment:'):
-            vs = [rng.randrange(nv)]
-        for v in vs:
-            fmt = ['hdf5:blocks', 'hdf5:compact', 'hdf5:flat'][(v + len(name)) % 3]
-            specs.append({'gen': name, 'args': {'variant': v} if nv > 1 else {}, 'seed': ctx.seed * 1000 + v, 'methods': [fmt, 'pickle'], 'shape': False})
-    lv = inv['leaves']['values']
-    leaves = []
-    for t, labels in sorted(lv.items()):
-        pick = labels if t in ('numpy.ma.MaskedArray',) or len(labels) <= 6 else labels[:3] + labels[-3:]
-        leaves += [{'type': t, 'label': lab, 'mode': 'alone'} for lab in pick]
-        leaves += [{'type': t, 'label': labels[0], 'mode': 'shared'}, {'type': t, 'label': labels[-1], 'mode': 'cycle'}]
-    graphs = [dict(c, methods=['hdf5:default', 'pickle']) for c in fixed_graphs]
-    return {'kind': 'trace', 'specs': specs, 'leaves': leaves, 'api': inv['api'], 'reduce': inv['reduce'], 'old_reduce': True, 'graphs': graphs}
-
-
-def coverage_table(ctx, r, inv, table):
-    fns = r['functions']
+def finish(ctx):
+    """after ALL streams: union of the line records of every runner process -> coverage table"""
+    import json
+    import os
+    import shutil
+    inv, table, cov_dir = STATE['inv'], STATE['table'], STATE['cov_dir']
+    if inv is None or cov_dir is None:
+        return
+    if not inv.get('monitoring'):
+        ctx.fail('correspondence', 'sys.monitoring is not available in the runner interpreter: no line coverage of the anchored functions', None)
+        return
+    hits, nrec = {}, 0
+    for fn in sorted(os.listdir(cov_dir)):
+        if fn.endswith('.json'):
+            nrec += 1
+            for f, first, lines in json.load(open(os.path.join(cov_dir, fn))):
+                hits.setdefault((f, first), set()).update(lines)
+    shutil.rmtree(cov_dir, ignore_errors=True)
+    fns = []
+    for a in inv['anchored']:
+        got = hits.get((a['file'], a['first']))
+        lines = {l for l, _ in a['lines']}
+        fns.append({'file': a['file'], 'name': a['name'], 'first': a['first'], 'lines': len(lines), 'hit': len(lines & (got or set())),
+                    'called': got is not None, 'unhit': [[l, t] for l, t in a['lines'] if l not in (got or set())]})
+    r = {'ran': {'runner_processes_recorded': nrec}}
     reached = {}
     tot_lines = hit_lines = excl_lines = 0
     nfun = nfun_called = 0
